@@ -78,7 +78,7 @@ D4 == [ name |-> "D4",
 \* D0: the empty store
 D0 == [name |-> "D0", names |-> << >>, row |-> << >>, pl |-> NoPlaces({})]
 
-Datasets == (IF Mode = "mix" THEN {D1, D0} ELSE IF Mode = "page" THEN {D1, D2, D3, D4} ELSE IF Mode \in {"datasets", "bool"} THEN {D1, D2, D3, D0, D4} ELSE {D1, D2})
+Datasets == (IF Mode = "big" THEN {D4} ELSE IF Mode = "mix" THEN {D1, D0} ELSE IF Mode = "page" THEN {D1, D2, D3, D4} ELSE IF Mode \in {"datasets", "bool"} THEN {D1, D2, D3, D0, D4} ELSE {D1, D2})
             \cup (IF Mode \in {"datasets", "scalar", "set", "bool", "subq", "page"} THEN RandDatasets ELSE {})
 
 \* ---- literal pools
@@ -132,7 +132,7 @@ ScalarSyms == {<<"id">>, <<"s">>, <<"n">>, <<"m">>, <<"f">>, <<"b">>, <<"t">>, <
                <<"lbl", "k">>, <<"lbl", "zz">>, <<"boss", "lbl", "k">>}
 SetSyms == {<<"roles">>, <<"peers">>, <<"boss", "roles">>, <<"peers", "s">>, <<"peers", "n">>, <<"peers", "roles">>,
             <<"peers", "boss">>, <<"peers", "boss", "s">>, <<"peers", "tags", "k">>, <<"peers", "peers">>, <<"boss", "peers">>,
-            <<"places">>, <<"places", "s">>, <<"boss", "places">>, <<"boss", "places", "s">>, <<"peers", "places", "s">>, <<"boss", "boss", "places", "id">>}
+            <<"places">>, <<"places", "id">>, <<"peers", "id">>, <<"places", "s">>, <<"boss", "places">>, <<"boss", "places", "s">>, <<"peers", "places", "s">>, <<"boss", "boss", "places", "id">>}
 
 TRUEF == [k |-> "const", v |-> TRUE]
 Q(p) == [p |-> p, sort |-> << >>, skip |-> NoVal, limit |-> NoVal]
@@ -194,6 +194,9 @@ Sorts == {<< >>} \cup {<<[sym |-> a, asc |-> d]>> : a \in SortSyms, d \in BOOLEA
          \cup {<<[sym |-> a, asc |-> d], [sym |-> b, asc |-> e]>> : a \in {<<"s">>, <<"n">>, <<"b">>, <<"t">>}, b \in {<<"f">>, <<"m">>, <<"id">>, <<"s">>}, d \in BOOLEAN, e \in BOOLEAN}
          \cup {<<[sym |-> <<"b">>, asc |-> d], [sym |-> <<"n">>, asc |-> TRUE], [sym |-> <<"s">>, asc |-> FALSE], [sym |-> <<"t">>, asc |-> d], [sym |-> <<"f">>, asc |-> FALSE]>> : d \in BOOLEAN}
          \cup {<<[sym |-> <<"id">>, asc |-> d], [sym |-> <<"s">>, asc |-> TRUE]>> : d \in BOOLEAN}
+         \* more sort fields than the fast scanner takes: five that tie in groups, the sixth decides (against the id order)
+         \cup {<<[sym |-> <<"b">>, asc |-> TRUE], [sym |-> <<"b">>, asc |-> TRUE], [sym |-> <<"b">>, asc |-> TRUE], [sym |-> <<"b">>, asc |-> TRUE],
+                 [sym |-> <<"b">>, asc |-> TRUE], [sym |-> <<"n">>, asc |-> d]>> : d \in BOOLEAN}
          \cup {<<[sym |-> <<"s">>, asc |-> TRUE], [sym |-> <<"id">>, asc |-> FALSE], [sym |-> <<"n">>, asc |-> TRUE]>>}
 Skips == {NoVal, 0, 1, 2, 5, 7, -1, -3}
 Limits == {NoVal, NoneLimit, -1, 0, 1, 2, 5, 100}
@@ -213,6 +216,8 @@ MixQ == {Q([k |-> w, sym |-> sym, a |-> a]) : w \in {"atom", "anyOf", "allOf"}, 
         \cup {Q([k |-> "count", sym |-> sym, op |-> op, n |-> n]) : sym \in MixSyms, op \in {"eq", "lt"}, n \in {N(1), F2(3), S(sA), B(TRUE), D(1), Nil}}
         \cup {Q([k |-> "isEmpty", sym |-> sym]) : sym \in MixSyms} \cup {Q([k |-> "boolsym", sym |-> sym]) : sym \in MixSyms}
         \cup {[p |-> TRUEF, sort |-> <<[sym |-> sym, asc |-> TRUE]>>, skip |-> NoVal, limit |-> NoVal] : sym \in MixSyms}
+        \* sorted queries whose page is empty by construction
+        \cup {[p |-> TRUEF, sort |-> <<[sym |-> sym, asc |-> TRUE]>>, skip |-> sk, limit |-> 0] : sym \in {<<"s">>, <<"n">>, <<"id">>, <<"boss", "s">>}, sk \in {NoVal, 0, -1, 7}}
         \* a valid set function first, then a set symbol where a scalar belongs (rejected at parse time, not evaluated without a cursor)
         \cup {Q([k |-> c, l |-> [k |-> "isEmpty", sym |-> <<"roles">>], r |-> [k |-> "atom", sym |-> sym, a |-> Cmp("eq", S(sA))]]) : c \in {"and", "or"}, sym \in SetSyms}
         \cup {Q([k |-> "or", l |-> [k |-> "anyOf", sym |-> <<"peers", "s">>, a |-> Cmp("eq", S(sA))], r |-> [k |-> "atom", sym |-> sym, a |-> IsNull(FALSE)]]) : sym \in SetSyms}
@@ -240,7 +245,14 @@ LitQ == {Q([k |-> "atom", sym |-> sym, a |-> a]) : sym \in LitSyms, a \in {x \in
         \cup {Q([k |-> fn, sym |-> sym, a |-> a]) : fn \in {"anyOf", "allOf"}, sym \in {<<"roles">>, <<"peers", "s">>, <<"peers", "boss", "s">>},
                                                    a \in {Cmp("eq", S(sE)), Cmp("ne", S(sE)), In(FALSE, {S(sA), S(sUAB), S(sE)}), Has(FALSE, FALSE, S(sE))}}
 
-QueriesOf(m) == CASE m = "lit" -> LitQ [] m = "datasets" -> {Q(TRUEF)} [] m = "probe" -> ProbeQ [] m = "sortsyms" -> SortSymQ [] m = "mix" -> MixQ [] m = "scalar" -> ScalarQ [] m = "set" -> SetQ [] m = "bool" -> BoolQ [] m = "subq" -> SubQ \cup SubQSorted [] m = "page" -> PageQ
+\* integer literals at the ends of the 64-bit range (beyond what a float64 holds exactly), against values there (dataset D4)
+BigLits == {NBig, N(999999), N(999998), NSmall, N(-999999), N(0), N(-2)}
+BigQ == {Q([k |-> "atom", sym |-> <<"n">>, a |-> Cmp(op, l)]) : op \in Ops6, l \in BigLits}
+        \cup {Q([k |-> "atom", sym |-> <<"n">>, a |-> In(neg, ls)]) : neg \in BOOLEAN, ls \in {{NBig}, {N(999999), NSmall}, {N(999998)}}}
+        \cup {Q([k |-> "atom", sym |-> <<"n">>, a |-> Btw(neg, lo, hi)]) : neg \in BOOLEAN, lo \in {NSmall, N(999999)}, hi \in {NBig, N(999999)}}
+        \cup {Q([k |-> "atom", sym |-> <<"boss", "n">>, a |-> Cmp(op, NBig)]) : op \in {"eq", "lt", "ge"}}
+
+QueriesOf(m) == CASE m = "lit" -> LitQ [] m = "big" -> BigQ [] m = "datasets" -> {Q(TRUEF)} [] m = "probe" -> ProbeQ [] m = "sortsyms" -> SortSymQ [] m = "mix" -> MixQ [] m = "scalar" -> ScalarQ [] m = "set" -> SetQ [] m = "bool" -> BoolQ [] m = "subq" -> SubQ \cup SubQSorted [] m = "page" -> PageQ
 
 \* one case per (dataset, query); sharded by a cheap hash so that several TLC processes split a slice
 VARIABLES ds, q, n
